@@ -309,4 +309,42 @@ theorem spanText_text_c07 (p : Pen) (s : List UInt8) (k n : Int) :
     rw [hp1, hp2]
     rfl
 
+open Tickit.Utf8 (specRun) in
+open Tickit.Props.C07 (Scans graphemes) in
+/-- **The text of a piece lies between two counts from the start of the string.**  For `0 ≤ k`, `0 ≤ n`: with the
+    characters `cs` of `s` scanned once from its start, `st` = where C07's specification stops under the limit
+    "`k` columns" and `en` = where it stops under the limit "`k + n` columns" — both from the start —, the text of
+    the `n` columns from column `k` on is `s[st.bytes, en.bytes)`.  (The code counts the second time from `st`;
+    `Props.C07.count_resumable` says that this ends where a single count would.) -/
+theorem spanText_between_counts (p : Pen) (s : List UInt8) (k n : Int) (hk : 0 ≤ k) (hn : 0 ≤ n) :
+    ∃ cs t st en,
+      Scans (Utf8.memOf s) (s.length + 1) none Tickit.Utf8.Pos.zero cs t ∧
+      st = (specRun (some ⟨none, -1, -1, k⟩) (graphemes cs) t Tickit.Utf8.Pos.zero).pos ∧
+      en = (specRun (some ⟨none, -1, -1, k + n⟩) (graphemes cs) t Tickit.Utf8.Pos.zero).pos ∧
+      st.bytes ≤ en.bytes ∧
+      specSpanBytes (.text p s k) n = (s.drop st.bytes).take (en.bytes - st.bytes) ∧
+      specSpanLen (.text p s k) n = (en.bytes : Int) - st.bytes := by
+  obtain ⟨cs1, t1, cs2, t2, st, en, hs1, hst, hs2, hen, hb, hl⟩ := spanText_text_c07 p s k n
+  have hle : Tickit.Utf8.LimitLe (some ⟨none, -1, -1, k⟩) (some ⟨none, -1, -1, k + n⟩) := by
+    intro q h
+    simp [Tickit.Utf8.Within, Tickit.Utf8.leOpt] at h ⊢
+    omega
+  obtain ⟨h1, hc1⟩ := Props.C07.count_spec (Utf8.memOf s) (s.length + 1) none Tickit.Utf8.Pos.zero (some ⟨none, -1, -1, k⟩) cs1 t1 hs1
+  rw [← hst] at hc1
+  obtain ⟨r2, r3, q, h2, h3, e2, e3, _, _⟩ := Props.C07.count_resumable (Utf8.memOf s) (s.length + 1) none Tickit.Utf8.Pos.zero
+    (some ⟨none, -1, -1, k⟩) (some ⟨none, -1, -1, k + n⟩) cs1 t1 hs1 hle (fun l h => by cases h) _ st h1 hc1
+  obtain ⟨h4, hc4⟩ := Props.C07.count_spec (Utf8.memOf s) (s.length + 1) none st (some ⟨none, -1, -1, k + n⟩) cs2 t2 hs2
+  rw [← hen] at hc4
+  obtain ⟨h5, hc5⟩ := Props.C07.count_spec (Utf8.memOf s) (s.length + 1) none Tickit.Utf8.Pos.zero (some ⟨none, -1, -1, k + n⟩) cs1 t1 hs1
+  have q1 : q = en := by
+    rw [e2] at hc4
+    injection hc4 with _ a _
+  have q2 : q = (specRun (some ⟨none, -1, -1, k + n⟩) (graphemes cs1) t1 Tickit.Utf8.Pos.zero).pos := by
+    rw [e3] at hc5
+    injection hc5 with _ a _
+  have hge : st.bytes ≤ en.bytes := by
+    rw [hen]
+    exact Tickit.Utf8.specRun_bytes_ge _ t2 _ st
+  exact ⟨cs1, t1, st, en, hs1, hst, by rw [← q1, q2], hge, hb, hl⟩
+
 end Tickit.RB
